@@ -113,12 +113,13 @@ class C03(Check):
         targets = []
         for j in range(rng.randrange(1, 4)):
             orb = gen.draw_orbit(rng, rng.choice(["leo", "meo", "geo", "heo", "xgeo"]), emax=0.7)
-            targets.append(gen.eci_target(10001 + j, orb["pos"], orb["vel"]))
+            plat = {} if rng.random() < 0.4 else {"mass": rng.choice([2.0, 50.0, 500.0, 4000.0]), "visual_cross_section": rng.choice([0.1, 5.0, 60.0, 200.0]), "reflectivity": rng.choice([0.1, 0.21, 0.9])}
+            targets.append(gen.eci_target(10001 + j, orb["pos"], orb["vel"], **plat))
         lat, lon, alt = gen.draw_site(rng)
         sensors = [gen.ground_sensor(90001, lat, lon, alt, gen.sensor_block("adv_radar", coarse=True, field_of_view={"fov_shape": "conic", "cone_angle": 60.0}))]
         geop = {"model": rng.choice(["egm96.txt", "egm2008.txt", "GGM03S.txt", "jgm3.txt"]), "degree": rng.choice([0, 2, 2, 4, 8]), "order": rng.choice([0, 0, 2, 4])}
         geop["order"] = min(geop["order"], geop["degree"])
-        pert = {"third_bodies": rng.sample(["sun", "moon", "jupiter", "venus", "saturn"], rng.choice([0, 1, 2, 2, 3])), "solar_radiation_pressure": rng.random() < 0.4,
+        pert = {"third_bodies": rng.sample(["sun", "moon", "jupiter", "venus", "saturn"], rng.choice([0, 1, 2, 2, 3])), "solar_radiation_pressure": rng.random() < 0.55,
                 "general_relativity": rng.random() < 0.3}
         full = rng.random() < (0.35 if not sp else 0.15)
         cfg = gen.base_config(start, step, n, [gen.engine_block(1, sensors, targets, "AllVisibleDecision")], model=model, integrator=rng.choice(["RK45", "DOP853"]),
@@ -146,7 +147,11 @@ class C03(Check):
                 members.append({"tag": "split", "config": c2, "plan": [{"seconds": c * step} for c in cuts] + [{"seconds": n * step}]})
             elif kind == "shift" and n >= 2:
                 members.append({"tag": "shift", "k": rng.randrange(1, n)})
-        return {"config": cfg, "plan": members[0]["plan"], "members": members, "schedule": {"name": "seeded", "seed": rng.randrange(2**31)}, "job_seed": rng.randrange(2**31)}
+        # the harness as the agent: the scenario's own dynamics class driven directly - one call over the whole span, and twin objects whose start
+        # date lies a drawn offset earlier (sub-second, odd, whole days) with the elapsed seconds making up for it
+        direct = {"one_call": rng.random() < 0.7, "offsets": [rng.choice([0.25, 0.5, 0.75, 1.0, 600.5, 3599.0, 43200.75, 86400.0, 86400.0 * rng.randrange(2, 30), rng.uniform(0.001, 86400.0)])
+                                                            for _ in range(rng.choice([0, 1, 2]))]}
+        return {"config": cfg, "plan": members[0]["plan"], "members": members, "direct": direct, "schedule": {"name": "seeded", "seed": rng.randrange(2**31)}, "job_seed": rng.randrange(2**31)}
 
     def sample_view(self, case):
         c = case["config"]
@@ -175,11 +180,14 @@ class C03(Check):
                 bulk = None
                 if not aborted and ctx.app is not None:
                     bulk = self._bulk(ctx.app, cfg)
+                    if cfg is case["config"] and case.get("direct"):
+                        self._direct = self._drive_directly(ctx.app, cfg, case["direct"])
                 return truth_of(snaps), batches, aborted, bulk
             finally:
                 cleanup(ctx)
 
         base_cfg = case["config"]
+        self._direct = None
         base, batches, aborted, bulk = run_member(base_cfg, case["plan"])
         if aborted or not base:
             res["skipped"] = "base-aborted"
@@ -236,6 +244,38 @@ class C03(Check):
                         viol.append({"clause": "bulk-differs-from-stepped", "key": "propagateBulk",
                                      "detail": f"target {tid}: propagateBulk over the epoch grid gives a state {dp:.3e} km / {dv:.3e} km/s from the stepped run at t={k * step}s"})
                         break
+        # the dynamics object driven directly by the harness
+        for d in (self._direct or []):
+            k = max(base)
+            if d["target"] not in base[k]:
+                continue
+            ref = base[k][d["target"]]
+            dp, dv = float(np.linalg.norm(d["state"][:3] - ref[:3])), float(np.linalg.norm(d["state"][3:] - ref[3:]))
+            REL_POS, REL_VEL = limits(k * step, ref)
+            name = "one_call" if d["kind"] == "one-call" else "start_date_offset"
+            if d["kind"] == "offset":
+                # Julian dates resolve 40 us: the two descriptions of an epoch can differ by ~1e-4 s, i.e. 1e-8 rad of Earth rotation acting on
+                # tesseral terms of ~1e-6 of the central acceleration; a slip of a quarter second is a thousand times that
+                upd("start_date_offset_acceleration_ratio_to_allowance", d["acc_rel"], 1.0)
+                if over(d["acc_rel"], 1.0):
+                    viol.append({"clause": "epoch-split-dependence", "key": "start-date-offset/acceleration",
+                                 "detail": f"target {d['target']}: at the same state and absolute epoch the acceleration differs by {d['acc_rel']:.1f}x what an epoch mismatch of 2e-4 s (Julian-date resolution) explains, between start date + elapsed and "
+                                           f"(start date - {d['offset']!r}s) + (elapsed + {d['offset']!r}s) (geopotential {base_cfg['geopotential']}, perturbations {base_cfg['perturbations']})"})
+                    break
+            upd(f"{name}_pos_ratio_to_limit", dp / REL_POS, 1.0)
+            upd(f"{name}_vel_ratio_to_limit", dv / REL_VEL, 1.0)
+            cnt[f"direct_{name}"] = cnt.get(f"direct_{name}", 0) + 1
+            compared += 1
+            if over(dp, REL_POS) or over(dv, REL_VEL):
+                if d["kind"] == "one-call":
+                    viol.append({"clause": "not-composable", "key": "one-call",
+                                 "detail": f"target {d['target']}: one propagate call over [0, {k * step}s] ends {dp:.3e} km / {dv:.3e} km/s from the run stepped in {k} calls of {step}s "
+                                           f"(model {base_cfg['propagation']['propagation_model']}, {base_cfg['propagation']['integration_method']}, perturbations {base_cfg['perturbations']})"})
+                else:
+                    viol.append({"clause": "epoch-split-dependence", "key": "start-date-offset",
+                                 "detail": f"target {d['target']}: the same absolute epochs described as (start date - {d['offset']!r}s) + (elapsed + {d['offset']!r}s) give a state {dp:.3e} km / {dv:.3e} km/s from the "
+                                           f"base run at t={k * step}s (geopotential {base_cfg['geopotential']}, perturbations {base_cfg['perturbations']})"})
+                break
         # (a) (b) relations
         members_run = 1
         for m in case["members"][1:]:
@@ -294,6 +334,43 @@ class C03(Check):
         res["sim_seconds"] = float(step * n * members_run)
         res["digest"] = jdigest([viol, sorted((k, [float(x).hex() for x in v]) for k0 in base for k, v in ((f"{k0}/{t}", s) for t, s in base[k0].items()))])
         return res
+
+    def _drive_directly(self, app, cfg, direct):
+        from resonaate.dynamics.special_perturbations import SpecialPerturbations
+        from resonaate.physics.time.stardate import JulianDate
+
+        S, step, out, n = time_info({"config": cfg})
+        T = float(n * step)
+        results = []
+        for t in cfg["engines"][0]["targets"]:
+            agent = app.target_agents.get(t["id"])
+            if agent is None:
+                continue
+            x0 = np.array(t["state"]["position"] + t["state"]["velocity"], dtype=float)
+            if direct.get("one_call"):
+                dyn = pickle.loads(pickle.dumps(agent.dynamics))
+                results.append({"kind": "one-call", "target": t["id"], "state": np.asarray(dyn.propagate(0.0, T, x0.copy()), dtype=float).reshape(-1)[:6]})
+            if isinstance(agent.dynamics, SpecialPerturbations):
+                sc = app.scenario_config
+                for off in direct.get("offsets", []):
+                    twin = SpecialPerturbations(JulianDate(float(agent.dynamics.init_julian_date) - off / 86400.0), sc.geopotential, sc.perturbations, agent.dynamics.sat_ratio,
+                                                method=sc.propagation.integration_method)
+                    # same absolute epochs, stepped like the base run so that only the description of the epoch differs
+                    x = x0.copy()
+                    worst = 0.0
+                    for k in range(n):
+                        # the force itself, at the same state and absolute epoch (the trajectory comparison is blunted by the integrator's own
+                        # step-size noise; this one is a function-level relation, rounding only)
+                        a0 = np.asarray(agent.dynamics._differentialEquation(float(k * step), x.copy(), check_collision=False), dtype=float)[3:]  # noqa: SLF001
+                        a1 = np.asarray(twin._differentialEquation(float(off + k * step), x.copy(), check_collision=False), dtype=float)[3:]  # noqa: SLF001
+                        # how fast the acceleration changes with the epoch at this state (finite difference over 1 ms): the two descriptions of the
+                        # epoch agree to the resolution of Julian dates (three roundings of 2e-5 s), a slip of a quarter second is 1000x that
+                        a2 = np.asarray(agent.dynamics._differentialEquation(float(k * step) + 1e-3, x.copy(), check_collision=False), dtype=float)[3:]  # noqa: SLF001
+                        allowed = float(np.linalg.norm(a2 - a0)) / 1e-3 * 2e-4 + 1e-14 * float(np.linalg.norm(a0))
+                        worst = max(worst, float(np.linalg.norm(a1 - a0)) / allowed)
+                        x = np.asarray(twin.propagate(off + k * step, off + (k + 1) * step, x), dtype=float).reshape(-1)[:6]
+                    results.append({"kind": "offset", "offset": off, "target": t["id"], "state": x, "acc_rel": worst})
+        return results
 
     def _bulk(self, app, cfg):
         S, step, out, n = time_info({"config": cfg})
